@@ -9,7 +9,7 @@
 -/
 import Hv.Storage.Chron
 
-namespace Hv.Storage
+namespace Hv.BlockStore
 
 inductive Res where
   | ok
@@ -195,4 +195,4 @@ def cCloseF (c : Cfg) (fc : FCfg) (mk : Mk) (st : CFSt) : CFOut :=
     let s := closeWF c fc mk { w := w, d := st.d, rs := st.rs }
     ⟨{ cs := { st.cs with w := none }, d := s.d, rs := s.rs }, s.ops, s.failed⟩
 
-end Hv.Storage
+end Hv.BlockStore
